@@ -8,6 +8,7 @@ mod c04;
 mod c10;
 mod c17;
 mod c18;
+mod c20;
 mod util;
 
 fn main() {
@@ -27,6 +28,7 @@ fn main() {
         "c17" => c17::main(&args),
         "c02" => c02::main(&args),
         "c18" => c18::main(&args),
+        "c20" => c20::main(&args),
         other => {
             eprintln!("unknown property {other}");
             std::process::exit(2);
